@@ -1233,6 +1233,242 @@ SHIFTS = ["min", "mean", "median", "med"]
 SCALES = ["minmax", "std", "iqr", "maxabs"]
 
 
+# ------------------------------------------------------------------ phase 5: translator tie from constants to BODIES (expression programs)
+def c11_programs_extract(repo):
+    """the bodies of coba.statistics.iqr / percentile (unweighted path), of Scale's application loops and of Impute's mean as
+    small expression programs (`PExpr` terms), read with `ast`; locals are normalised (`%0 %1 …` in order of assignment,
+    `$p` the percentile parameter), anything unexpected raises (→ fallback, quiet)"""
+    def parse(rel):
+        return ast.parse(open(os.path.join(repo, rel), encoding="utf-8").read())
+
+    def lit(c):
+        if isinstance(c, bool) or not isinstance(c, (int, float)):
+            raise LookupError("literal %r" % (c,))
+        q = Fraction(repr(c)) if isinstance(c, float) else Fraction(c)
+        return ["lit", q.numerator, q.denominator]
+
+    def tr(node, names, values="values"):
+        if isinstance(node, ast.Constant):
+            return lit(node.value)
+        if isinstance(node, ast.UnaryOp) and isinstance(node.op, ast.USub) and isinstance(node.operand, ast.Constant):
+            l = lit(node.operand.value)
+            return ["lit", -l[1], l[2]]
+        if isinstance(node, ast.Name):
+            if node.id not in names:
+                raise LookupError("unbound name %s" % node.id)
+            return ["var", names[node.id]]
+        if isinstance(node, ast.BinOp):
+            op = {ast.Add: "add", ast.Sub: "sub", ast.Mult: "mul", ast.Div: "div"}.get(type(node.op))
+            if op is None:
+                raise LookupError("operator %s" % ast.dump(node.op))
+            return [op, tr(node.left, names, values), tr(node.right, names, values)]
+        if isinstance(node, ast.Call) and isinstance(node.func, ast.Name) and len(node.args) == 1 and not node.keywords:
+            a = node.args[0]
+            if node.func.id == "int":
+                return ["toInt", tr(a, names, values)]
+            if node.func.id in ("len", "sum") and isinstance(a, ast.Name) and a.id == values:
+                return ["lenV" if node.func.id == "len" else "sumV"]
+        if isinstance(node, ast.Subscript) and isinstance(node.value, ast.Name) and node.value.id == values:
+            return ["idx", tr(node.slice, names, values)]
+        raise LookupError("expression %s" % ast.unparse(node))
+
+    def top(tree, name):
+        for n in tree.body:
+            if isinstance(n, ast.FunctionDef) and n.name == name:
+                return n
+        raise LookupError(name)
+
+    def is_len_values(n):
+        return isinstance(n, ast.Call) and isinstance(n.func, ast.Name) and n.func.id == "len" and len(n.args) == 1 and isinstance(n.args[0], ast.Name) and n.args[0].id == "values"
+
+    st = parse("coba/statistics.py")
+    r = {}
+    # ---- iqr
+    f = top(st, "iqr")
+    thr = small = ps = names = ret = None
+    for s in f.body:
+        if isinstance(s, ast.If) and isinstance(s.test, ast.Compare) and is_len_values(s.test.left) and len(s.test.ops) == 1 \
+                and isinstance(s.test.comparators[0], ast.Constant) and len(s.body) == 1 and isinstance(s.body[0], ast.Return):
+            c = s.test.comparators[0].value
+            thr = c if isinstance(s.test.ops[0], ast.LtE) else c - 1 if isinstance(s.test.ops[0], ast.Lt) else None
+            if thr is None or not isinstance(thr, int) or thr < 0:
+                raise LookupError("iqr threshold %s" % ast.unparse(s.test))
+            small = lit(s.body[0].value.value)[1:]
+        elif isinstance(s, ast.Assign) and isinstance(s.targets[0], ast.Tuple) and isinstance(s.value, ast.Call) \
+                and isinstance(s.value.func, ast.Name) and s.value.func.id == "percentile":
+            names = {e.id: "%%%d" % i for i, e in enumerate(s.targets[0].elts)}
+            ps = [lit(c)[1:] for c in ast.literal_eval(s.value.args[1])]
+            if len(s.value.args) != 2 or s.value.keywords:
+                raise LookupError("percentile call in iqr")
+        elif isinstance(s, ast.Return):
+            ret = tr(s.value, names or {})
+    if None in (thr, small, ps, names, ret):
+        raise LookupError("iqr body")
+    r["iqr"] = {"thr": thr, "small": small, "ps": ps, "names": [names[k] for k in sorted(names, key=lambda k: names[k])], "ret": ret}
+    # ---- percentile (unweighted)
+    f = top(st, "percentile")
+    single = None
+    for s in f.body:
+        if isinstance(s, ast.If) and isinstance(s.test, ast.Compare) and is_len_values(s.test.left) and isinstance(s.test.ops[0], ast.Eq) \
+                and isinstance(s.test.comparators[0], ast.Constant) and s.test.comparators[0].value == 1:
+            for x in ast.walk(s):
+                if isinstance(x, ast.Return) and isinstance(x.value, ast.Subscript):
+                    single = tr(x.value, {})
+    inner = next(n for n in f.body if isinstance(n, ast.FunctionDef) and n.name == "_percentile")
+    pname = inner.args.args[2].arg
+    if inner.args.args[0].arg != "values":
+        raise LookupError("_percentile parameters")
+    at = {}
+    prog = None
+    for s in inner.body:
+        if isinstance(s, ast.If) and isinstance(s.test, ast.Compare) and isinstance(s.test.left, ast.Name) and s.test.left.id == pname \
+                and isinstance(s.test.ops[0], ast.Eq) and isinstance(s.test.comparators[0], ast.Constant):
+            at[s.test.comparators[0].value] = tr(s.body[0].value, {})
+        elif isinstance(s, ast.If) and isinstance(s.test, ast.Name) and s.test.id == inner.args.args[1].arg:
+            names = {pname: "$p"}
+            body = s.orelse
+            a_i, a_I, branch = body
+            names[a_i.targets[0].id] = "%0"
+            e_i = tr(a_i.value, {pname: "$p"})
+            e_I = tr(a_I.value, dict(names))
+            names[a_I.targets[0].id] = "%1"
+            t_ = branch.test
+            if not (isinstance(t_, ast.Compare) and isinstance(t_.ops[0], ast.Eq) and {t_.left.id, t_.comparators[0].id} == {a_i.targets[0].id, a_I.targets[0].id}):
+                raise LookupError("i == I test")
+            e_exact = tr(branch.body[0].value, dict(names))
+            a_w, ret_ = branch.orelse
+            e_w = tr(a_w.value, dict(names))
+            names[a_w.targets[0].id] = "%2"
+            e_interp = tr(ret_.value, dict(names))
+            prog = {"i": e_i, "I": e_I, "exact": e_exact, "w": e_w, "interp": e_interp}
+    if prog is None or single is None or 0 not in at or 1 not in at:
+        raise LookupError("percentile body")
+    prog.update(single=single, atZero=at[0], atOne=at[1])
+    r["pct"] = prog
+    # ---- Scale's application loops and Impute's mean
+    filt = parse("coba/environments/filters.py")
+    scale = next(n for n in filt.body if isinstance(n, ast.ClassDef) and n.name == "Scale")
+    impute = next(n for n in filt.body if isinstance(n, ast.ClassDef) and n.name == "Impute")
+    sfilter = next(n for n in scale.body if isinstance(n, ast.FunctionDef) and n.name == "filter")
+
+    def role(n, target):
+        if isinstance(n, ast.Name) and n.id in ("shift", "scale"):
+            return ["var", n.id]
+        if isinstance(n, ast.Subscript) and isinstance(n.slice, ast.Constant) and n.slice.value in (0, 1) and isinstance(n.value, ast.Name):
+            return ["var", "shift" if n.slice.value == 0 else "scale"]
+        if ast.dump(n) == ast.dump(target).replace("Store()", "Load()") or isinstance(n, ast.Name):
+            return ["var", "x"]
+        raise LookupError("operand %s" % ast.unparse(n))
+
+    def apply_tr(n, target):
+        if isinstance(n, ast.BinOp):
+            op = {ast.Add: "add", ast.Sub: "sub", ast.Mult: "mul", ast.Div: "div"}.get(type(n.op))
+            if op is None:
+                raise LookupError("operator")
+            return [op, apply_tr(n.left, target), apply_tr(n.right, target)]
+        return role(n, target)
+    applies = []
+    for n in ast.walk(sfilter):
+        if isinstance(n, ast.Assign) and isinstance(n.targets[0], ast.Subscript) and isinstance(n.value, ast.BinOp):
+            applies.append(apply_tr(n.value, n.targets[0]))
+    if not applies:
+        raise LookupError("no application assignment in Scale.filter")
+    r["apply"] = applies
+    gi = next(n for n in impute.body if isinstance(n, ast.FunctionDef) and n.name == "_get_imputation")
+    mean = None
+    for n in ast.walk(gi):
+        if isinstance(n, ast.If) and isinstance(n.test, ast.Compare) and isinstance(n.test.ops[0], ast.Eq) \
+                and isinstance(n.test.comparators[0], ast.Constant) and n.test.comparators[0].value == "mean" and isinstance(n.body[0], ast.Return):
+            mean = tr(n.body[0].value, {})
+    if mean is None:
+        raise LookupError("mean branch of _get_imputation")
+    r["mean"] = mean
+    return r
+
+
+C11_PROGRAMS_FALLBACK = {"iqr": {"thr": 1, "small": [0, 1], "ps": [[1, 4], [3, 4]], "names": ["%0", "%1"], "ret": ["sub", ["var", "%1"], ["var", "%0"]]}, "pct": {"i": ["mul", ["var", "$p"], ["sub", ["lenV"], ["lit", 1, 1]]], "I": ["toInt", ["var", "%0"]], "exact": ["idx", ["var", "%1"]], "w": ["sub", ["var", "%0"], ["var", "%1"]], "interp": ["add", ["mul", ["sub", ["lit", 1, 1], ["var", "%2"]], ["idx", ["var", "%1"]]], ["mul", ["var", "%2"], ["idx", ["add", ["var", "%1"], ["lit", 1, 1]]]]], "single": ["idx", ["lit", 0, 1]], "atZero": ["idx", ["lit", 0, 1]], "atOne": ["idx", ["lit", -1, 1]]}, "apply": [["mul", ["add", ["var", "x"], ["var", "shift"]], ["var", "scale"]]], "mean": ["div", ["sumV"], ["lenV"]]}
+
+
+def c11_programs_lean(r, extracted, note):
+    def rat(n, d):
+        return "((%d : Rat) / %d)" % (n, d)
+
+    def ex(e):
+        k = e[0]
+        if k == "lit":
+            return "(.lit %s)" % rat(e[1], e[2])
+        if k == "var":
+            return "(.var %s)" % json.dumps(e[1])
+        if k in ("lenV", "sumV"):
+            return "." + k
+        if k in ("idx", "toInt"):
+            return "(.%s %s)" % (k, ex(e[1]))
+        return "(.%s %s %s)" % (k, ex(e[1]), ex(e[2]))
+    p, q = r["pct"], r["iqr"]
+    lines = ["-- GENERATED by harness/props/c11.py from coba/statistics.py and coba/environments/filters.py on every run; do not edit.",
+             "-- " + note,
+             "import CobaVerif.Model.C11", "namespace Coba.Generated.C11", "open Coba.C11",
+             "def progsExtracted : Bool := %s" % ("true" if extracted else "false"),
+             "def pctSrc : PctProg :=\n  { " + ",\n    ".join("%s := %s" % (k, ex(p[k])) for k in ("single", "atZero", "atOne", "i", "I", "exact", "w", "interp")) + " }",
+             "def iqrSrc : IqrProg :=\n  { thr := %d, small := %s, ps := [%s], names := [%s], ret := %s }" % (
+                 q["thr"], rat(*q["small"]), ", ".join(rat(*x) for x in q["ps"]), ", ".join(json.dumps(x) for x in q["names"]), ex(q["ret"])),
+             "def applySrc : List PExpr := [%s]" % ", ".join(ex(e) for e in r["apply"]),
+             "def meanSrc : PExpr := %s" % ex(r["mean"]),
+             "end Coba.Generated.C11", ""]
+    return "\n".join(lines)
+
+
+# ------------------------------------------------------------------ phase 5: the statistics themselves (size / parity thresholds, first-seen mode)
+def stats_columns():
+    """deterministic columns: every count 0..13 of non-missing values (even and odd, n % 4 = 0,1,2,3), all distinct with distinct
+    gaps (powers of two, so every order statistic and every interpolation weight shows in the result), with ties, constant;
+    presented in an order that is neither sorted nor reversed"""
+    cols = []
+    for n in range(0, 14):
+        perm = sorted(range(n), key=lambda i: (i * 5 + 3) % max(n, 1) * 16 + i)
+        cols.append([V(2 ** (i % 11) + (i // 11)) for i in perm])                  # distinct, growing gaps
+        if n >= 2:
+            cols.append([V((i // 2) * 3 - 4) for i in perm])                       # ties in pairs
+            cols.append([V((2 ** i) / 4, "f") for i in perm][:n])                  # dyadic floats
+        if n >= 3:
+            cols.append([V(7)] * (n - 1) + [V(-1)])                                # nearly constant
+    return cols
+
+
+def mode_columns():
+    """ties where the first value seen is not the smallest / not the last; mixed strings and numbers"""
+    n = lambda x: V(x)
+    return [[n(3), n(1), n(1), n(3)], [n(3), n(1), n(1), n(3), n(1)], [n(5), n(2)], [n(2), n(5)], [n(9), n(4), n(4), n(9), n(0)],
+            [n(2), n(2), n(1), n(1), n(0), n(0)], [n(0), n(1), n(1), n(2), n(2)], [V("b"), V("a"), V("a"), V("b")],
+            [V("b"), n(1), V("a"), n(1), V("b")], [n(2), V("a"), V("a"), n(2), V("a")], [V("z"), n(0), n(0), V("z")],
+            [n(7)], [V("q")], [n(1), n(2), n(3)], [n(3), n(2), n(1)], [V(1.5, "f"), n(1), V(1.5, "f"), n(1)]]
+
+
+def stats_impl(col):
+    """the real statistic functions on the non-missing values of one column"""
+    import statistics as st
+    from coba.statistics import iqr, percentile
+    vals = [to_py(v) for v in col if v is not None and v != NAN]
+    xs = [x for x in vals if not isinstance(x, str)]
+    out = {}
+
+    def run(name, fn):
+        try:
+            r = fn()
+            out[name] = [from_py(x) for x in r] if isinstance(r, (tuple, list)) else from_py(r)
+        except Exception as e:
+            out[name] = {"err": type(e).__name__}
+    if len(xs) == len(vals):
+        run("iqr", lambda: iqr(list(xs)))
+        run("pct", lambda: percentile(list(xs), [0.25, 0.75]))
+        run("p25", lambda: percentile(sorted(xs), 0.25, sort=False))
+        run("median", lambda: st.median(list(xs)))
+        run("min", lambda: min(xs))
+        run("max", lambda: max(xs))
+    run("mode", lambda: st.mode(list(vals)))
+    return out
+
+
 class C11(Property):
     id = "C11"
     prop_modules = ["CobaVerif.Props.C11"]
@@ -1298,7 +1534,21 @@ class C11(Property):
             os.makedirs(os.path.dirname(path), exist_ok=True)
             with open(path, "w", encoding="utf-8") as f:
                 f.write(body)
-        return [note]
+        # phase 5: the statistic BODIES as expression programs
+        path2 = os.path.join(lean.LEAN_DIR, "CobaVerif", "Generated", "C11Programs.lean")
+        try:
+            pr = c11_programs_extract(repo)
+            body2 = c11_programs_lean(pr, True, "bodies of statistics.iqr / percentile, Scale's application expression, Impute's mean as expression programs")
+            note2 = "C11 programs extracted: iqr thr %s ps %s, percentile i/I/w/interp, %d application expression(s), mean" % (
+                pr["iqr"]["thr"], pr["iqr"]["ps"], len(pr["apply"]))
+        except Exception as e:  # source reshaped: obligations stated about the last known programs only (behaviour stays pinned by (A)/(B))
+            body2 = c11_programs_lean(C11_PROGRAMS_FALLBACK, False, "NOT extracted (%s: %s); last known programs" % (type(e).__name__, str(e)[:80].replace("\n", " ")))
+            note2 = "C11 programs could not be extracted (%s); the stats / Scale / Impute correspondence still pins them" % type(e).__name__
+        old2 = open(path2, encoding="utf-8").read() if os.path.exists(path2) else None
+        if old2 != body2:
+            with open(path2, "w", encoding="utf-8") as f:
+                f.write(body2)
+        return [note, note2]
 
     # ---- generators
     def gen_perfect_square(self, rng, tier):
@@ -1326,6 +1576,126 @@ class C11(Property):
         if kind == "dense":
             case["container"] = rng.choice(["tuple", "list"])
         return case
+
+    def gen_stats(self, rng, tier):
+        """phase 5: one column for the statistic functions themselves — count 0..13, ties, first-seen modes, mixed values"""
+        n = rng.choice([0, 1, 1, 2, 2, 3, 4, 4, 5, 6, 7, 8, 9, 10, 12, 13])
+        style = rng.choice(["int", "ties", "dyadic", "mixedmode", "strmode"])
+        col = []
+        for _ in range(n):
+            if style == "int":
+                col.append(V(rng.randint(-40, 40)))
+            elif style == "ties":
+                col.append(V(rng.randint(0, 3)))
+            elif style == "dyadic":
+                col.append(V(rng.randint(-64, 64) / rng.choice([2, 4, 8]), "f"))
+            elif style == "mixedmode":
+                col.append(V("s%d" % rng.below(2)) if rng.chance(0.4) else V(rng.randint(0, 2)))
+            else:
+                col.append(V("s%d" % rng.below(3)))
+        for _ in range(rng.choice([0, 0, 1, 2])):
+            col.insert(rng.below(len(col) + 1), rng.choice([None, None, NAN]))
+        return {"op": "stats", "col": col}
+
+    def evaluate_stats(self, case, driver):
+        """the statistic functions of coba/statistics.py and `statistics` on one column vs the exact reference (B: the documented
+        statistic) and the Lean model (A: `iqr`, `percentile`, `quarterAt`, `median`, `mode` = first seen)"""
+        col = case["col"]
+        vals = [v for v in col if v is not None and v != NAN]
+        nums = [fr(v) for v in vals if is_num(v)]
+        numeric = len(nums) == len(vals)
+        n = len(vals)
+        tags = ["op:stats", "statfn:n=%d" % n, "statfn:" + ("numeric" if numeric else "mixed" if nums else "strings")]
+        if numeric and n >= 2:
+            tags += ["statfn:n%%4=%d" % (n % 4), "statfn:even" if n % 2 == 0 else "statfn:odd"]
+            if len(set(nums)) < n:
+                tags.append("statfn:ties")
+        impl = stats_impl(col)
+        fails = []
+
+        def num_of(v):
+            return fr(v) if is_num(v) else None
+        # ---- (B) exact reference: the documented statistics
+        if numeric:
+            ref = {}
+            ref["iqr"] = Fraction(0) if n <= 1 else f_quantile(nums, Fraction(3, 4)) - f_quantile(nums, Fraction(1, 4))
+            if n >= 1:
+                ref["median"] = f_median(nums)
+                ref["min"], ref["max"] = min(nums), max(nums)
+                ref["p25"] = f_quantile(nums, Fraction(1, 4))
+                ref["pct"] = [f_quantile(nums, Fraction(1, 4)), f_quantile(nums, Fraction(3, 4))]
+            for k, e in ref.items():
+                got = impl.get(k)
+                gl = got if isinstance(got, list) else [got]
+                el = e if isinstance(e, list) else [e]
+                ok = len(gl) == len(el) and all(is_num(g) and close(fr(g), x, max(abs(y) for y in nums) if nums else 1.0) for g, x in zip(gl, el))
+                if not ok:
+                    fails.append(F("B", "statistic %s of %s (%d values, %s): expected %s, got %s" % (
+                        k, [show(v) for v in vals], n, "even" if n % 2 == 0 else "odd", [str(x) for x in el], [show(g) if not isinstance(g, dict) or "err" not in g else g for g in gl]),
+                        "stats-%s-wrong:n%%4=%d" % (k, n % 4)))
+        if n >= 1:
+            got = impl.get("mode")
+            cnt = {}
+            for v in vals:
+                key = json.dumps(to_lean(v) if not is_num(v) else [fr(v).numerator, fr(v).denominator], sort_keys=True)
+                cnt[key] = cnt.get(key, 0) + 1
+            gk = None if got is None or (isinstance(got, dict) and "err" in got) else json.dumps(to_lean(got) if not is_num(got) else [fr(got).numerator, fr(got).denominator], sort_keys=True)
+            if gk is None or cnt.get(gk, 0) != max(cnt.values()):
+                fails.append(F("B", "mode of %s is not a most frequent value: got %s" % ([show(v) for v in vals], got), "stats-mode-wrong"))
+            first = next(v for v in vals if cnt[json.dumps(to_lean(v) if not is_num(v) else [fr(v).numerator, fr(v).denominator], sort_keys=True)] == max(cnt.values()))
+            if len([c for c in cnt.values() if c == max(cnt.values())]) > 1:
+                tags.append("mode:tie")
+                smallest_num = min(nums) if numeric else None
+                if numeric and fr(first) != min(fr(v) for v in vals if cnt[json.dumps([fr(v).numerator, fr(v).denominator])] == max(cnt.values())):
+                    tags.append("mode:first-seen-not-smallest")
+        model = None
+        if driver is not None:
+            ans = driver.ask({"op": "stats", "xs": [[x.numerator, x.denominator] for x in nums] if numeric else [],
+                              "vals": [to_lean(v) for v in col]})
+            model = ans
+
+            def cmp(name, got, exp_j, exact=True):
+                if exp_j is None:
+                    if not (isinstance(got, dict) and "err" in got) and got is not None:
+                        fails.append(F("A", "stats %s: model has no value, implementation %s" % (name, got), "A:stats:%s" % name))
+                    return
+                e = Fraction(exp_j[0], exp_j[1])
+                if not is_num(got) or (fr(got) != e if exact else not close(fr(got), e)):
+                    fails.append(F("A", "stats %s of %s: implementation %s, model %s" % (name, [show(v) for v in vals], show(got) if not isinstance(got, dict) or "q" in got else got, e), "A:stats:%s" % name))
+            if numeric:
+                exact = all(x.denominator in (1, 2, 4, 8, 16) and abs(x) < 2 ** 20 for x in nums)
+                cmp("iqr", impl.get("iqr"), ans["iqr"], exact)
+                if n >= 1:
+                    cmp("median", impl.get("median"), ans["median"], exact)
+                    cmp("min", impl.get("min"), ans["min"])
+                    cmp("max", impl.get("max"), ans["max"])
+                    cmp("p25", impl.get("p25"), ans["p25"], exact)
+                    pct = impl.get("pct")
+                    if isinstance(pct, list) and len(pct) == 2:
+                        cmp("pct25", pct[0], ans["p25"], exact)
+                        cmp("pct75", pct[1], ans["p75"], exact)
+                    else:
+                        fails.append(F("A", "percentile(values,[.25,.75]) returned %s" % (pct,), "A:stats:pct-shape"))
+                # the expression programs (what `programs_match_source` ties to the source bodies) against the real functions
+                cmp("program:iqr", impl.get("iqr"), ans["progiqr"], exact)
+                if n >= 1:
+                    cmp("program:p25", impl.get("p25"), ans["prog25"], exact)
+                    if isinstance(pct, list) and len(pct) == 2:
+                        cmp("program:p75", pct[1], ans["prog75"], exact)
+                    if ans["progmean"] is None or not close(Fraction(*ans["progmean"]), sum(nums) / n):
+                        fails.append(F("C", "meanExpr program differs from the mean: %s" % (ans["progmean"],), "C:stats:program-mean"))
+                    if ans["progapply"] is None or Fraction(*ans["progapply"]) != (nums[0] + min(nums)) * 3:
+                        fails.append(F("C", "applyExpr program differs from (x+shift)*scale: %s" % (ans["progapply"],), "C:stats:program-apply"))
+                    tags.append("program-checked")
+                if n >= 2 and (ans["q1"] != ans["p25"] or ans["q3"] != ans["p75"]):
+                    fails.append(F("C", "quarterAt differs from percentile (percentile_quarter): %s" % ans, "C:stats:quarter"))
+            if n >= 1:
+                got = impl.get("mode")
+                exp = from_lean(ans["mode"])
+                same = (is_num(got) and is_num(exp) and fr(got) == fr(exp)) or (is_str(got) and is_str(exp) and got["s"] == exp["s"])
+                if not same:
+                    fails.append(F("A", "statistics.mode of %s: implementation %s, model (first value of maximal count) %s" % ([show(v) for v in vals], got, exp), "A:stats:mode"))
+        return {"fails": fails, "nontrivial": n >= 2, "tags": tags, "impl": impl, "model": model}
 
     def gen_ragged(self, rng, tier):
         """dense contexts of DIFFERENT lengths (outside the quantifier; (A) only): a short / long row inside or after the
@@ -1489,6 +1859,8 @@ class C11(Property):
             return self.gen_ragged(rng, tier)
         if rng.chance(0.03):
             return self.gen_perfect_square(rng, tier)
+        if rng.chance(0.04):
+            return self.gen_stats(rng, tier)
         return self.generate_single(rng, tier)
 
     def generate_seq(self, rng, tier):
@@ -1727,6 +2099,27 @@ class C11(Property):
                             [[n(1), n(2), n(3)], [n(3), n(4), n(5)], [n(6), n(1)]], [[V("a"), n(1)], [V("b")], [V("c"), n(3)]]):
                     cs.append({"op": "scale", "kind": "dense", "ragged": True, "container": "tuple", "rows": tab, "shift": sh, "scale": sc, "using": using,
                                "via": "filter", "itype": "sim"})
+        # phase 5: size / parity thresholds of every statistic (0..13 values, n % 4 = 0,1,2,3, ties), first-seen modes, mixed columns —
+        # once on the statistic functions themselves and once through Scale / Impute (so (B) judges the filter output)
+        for colv in stats_columns():
+            cs.append({"op": "stats", "col": colv})
+            if not colv:
+                continue
+            for sh, sc in ((n(0), "iqr"), ("median", n(1)), ("min", "iqr")):
+                cs.append({"op": "scale", "kind": "scalar", "rows": list(colv), "shift": sh, "scale": sc, "using": None, "via": "filter", "itype": "sim"})
+                cs.append({"op": "scale", "kind": "dense", "container": "tuple", "rows": [[v, n(1)] for v in colv] + [[n(100), n(2)]], "shift": sh, "scale": sc,
+                           "using": len(colv), "via": "filter", "itype": "sim"})
+            holed = list(colv[:1]) + [None] + list(colv[1:])
+            cs.append({"op": "impute", "kind": "scalar", "rows": holed, "stats": ["median"], "ind": False, "using": None, "via": "filter", "itype": "sim"})
+            cs.append({"op": "impute", "kind": "dense", "container": "list", "rows": [[v] for v in holed] + [[None]], "stats": ["median"], "ind": True,
+                       "using": len(holed), "via": "filter", "itype": "sim"})
+        for colv in mode_columns():
+            cs.append({"op": "stats", "col": colv})
+            cs.append({"op": "stats", "col": [None] + colv + [NAN]})
+            holed = list(colv[:1]) + [None] + list(colv[1:])
+            cs.append({"op": "impute", "kind": "scalar", "rows": holed, "stats": ["mode"], "ind": False, "using": None, "via": "filter", "itype": "sim"})
+            cs.append({"op": "impute", "kind": "dense", "container": "tuple", "rows": [[v] for v in holed] + [[None]], "stats": ["mode"], "ind": False,
+                       "using": len(holed), "via": "filter", "itype": "sim"})
         return cs
 
     def exhaustive(self, tier):
@@ -1791,6 +2184,8 @@ class C11(Property):
             return self.evaluate_seq(case, driver)
         if case.get("ragged"):
             return self.evaluate_ragged(case, driver)
+        if case.get("op") == "stats":
+            return self.evaluate_stats(case, driver)
         return self.evaluate_single(case, driver)
 
     def evaluate_seq(self, case, driver):
@@ -2238,6 +2633,10 @@ class C11(Property):
         if "seq" in case:
             yield from self.shrink_seq(case)
             return
+        if case.get("op") == "stats":
+            for i in range(len(case["col"])):
+                yield dict(case, col=case["col"][:i] + case["col"][i + 1:])
+            return
         yield from self.shrink_single(case)
 
     def shrink_seq(self, case):
@@ -2305,6 +2704,12 @@ class C11(Property):
                     yield dict(case, rows=rows[:i] + [nr] + rows[i + 1:])
 
     def snippet(self, case):
+        if case.get("op") == "stats":
+            return ("import sys, os, json; sys.path[:0] = [os.environ.get('COBA_REPO', '/repo'), '/verif/harness']\n"
+                    "from props.c11 import stats_impl, to_py\n"
+                    "case = json.loads(%r)\n"
+                    "print('column (non-missing values):', [to_py(v) for v in case['col'] if v is not None and v != 'nan'])\n"
+                    "print('coba.statistics.iqr / percentile([.25,.75]) / statistics.median / mode:', stats_impl(case['col']))\n" % json.dumps(case))
         if "seq" in case:
             return ("import sys, os, json; sys.path[:0] = [os.environ.get('COBA_REPO', '/repo'), '/verif/harness']\n"
                     "from props.c11 import run_seq, sub_cases, make_interactions\n"
